@@ -66,6 +66,7 @@ type Contract struct {
 	Callbacks     []string // externs: parameters that are callbacks invoked any number of times
 	HasAssigns    bool
 	Loops         map[int][]Clause
+	Decreases     map[int][]Clause // loop variants: non-negative integer expressions that strictly decrease on every iteration
 	PanicsWhen    []Clause
 	Props         []string
 	Inline        bool
@@ -399,8 +400,19 @@ func (db *SpecDB) LoadSpecFile(path string) error {
 					return fail(err)
 				}
 				body := strings.TrimSpace(rest[colon+1:])
+				if strings.HasPrefix(body, "decreases") {
+					c, err := parseClause(strings.TrimSpace(strings.TrimPrefix(body, "decreases")))
+					if err != nil {
+						return fail(err)
+					}
+					if cur.Decreases == nil {
+						cur.Decreases = map[int][]Clause{}
+					}
+					cur.Decreases[n] = append(cur.Decreases[n], c)
+					break
+				}
 				if !strings.HasPrefix(body, "invariant") {
-					return fail(fmt.Errorf("expected 'invariant'"))
+					return fail(fmt.Errorf("expected 'invariant' or 'decreases'"))
 				}
 				c, err := parseClause(strings.TrimSpace(strings.TrimPrefix(body, "invariant")))
 				if err != nil {
